@@ -6,10 +6,10 @@ ALLOWED_AXIOMS = set()   # the development is axiom-free; anything Print Assumpt
 TRUSTED_BASE = [
     "Coq 8.16.1 kernel and coqc (vm_compute used for the width-table lemma and Examples; no native_compute)",
     "axioms: none (Print Assumptions under every property theorem must say 'Closed under the global context')",
-    "hand-written Gallina model coq/Model/*.v of the Rust source, tied to /repo only by the L1 correspondence (differential testing on generated inputs this run)",
+    "hand-written Gallina model coq/Model/*.v of the Rust source, tied to /repo by the L1 correspondence (differential testing on generated inputs this run) and, for its literal constants, by tools/gen_src_consts.py (regular-expression extraction of the literals from the source text into coq/gen/SrcConsts.v, proved equal to the model's constants by computation)",
     "extraction: Require Extraction + ExtrOcamlBasic only (its Extract Inductive for bool/option/unit/list/prod/sumbool/sumor and Extract Inlined Constant for fst/snd/andb/orb/negb); no directive of our own; OCaml 4.13.1",
     "ocaml/{util,checks,driver}.ml (case parser, printers, table loader, oracle tables) and the Rust harness (generators, catch_unwind, Cow/pointer observation, canonical printing)",
-    "external crates are model parameters: unicode-width (table dumped exhaustively from the implementation each run), unicode-linebreak (oracle tabulated by the harness; assumed properties asserted on every generated case), smawk (optimal-fit partitions recorded through the public Custom hook)",
+    "external crates are model parameters: unicode-width (table dumped exhaustively from the implementation each run), unicode-linebreak (oracle tabulated by the harness; assumed properties asserted on every generated case), smawk (executable Gallina model of smawk_inner/online_column_minima agreeing with the crate on every generated case, ties included; optimal-fit partitions recorded through the public Custom hook)",
     "f64 is modelled by a law-free Num record; instances Z and Q are exact where every intermediate value is an integer below 2^53 or a small dyadic rational; usize is N",
 ]
 
